@@ -155,6 +155,13 @@ func (r *Report) Own(s OwnSpec) {
 				via = append(via, name)
 				continue
 			}
+			// the reverse refactoring: an owner was inlined into the function that used to call it (the owner is gone, the
+			// baseline inventory records the call)
+			if o, ok := r.P.InlinedOwnerOf(fnOf[name], s.Owners); ok {
+				via = append(via, name+" (owner "+o+" inlined)")
+				Rebindings = append(Rebindings, "owner "+o+" inlined into "+name)
+				continue
+			}
 			bad++
 			r.Bad(s.ID+" @ "+name, rule, firstPos[name], fmt.Sprintf("%s performs [%s] (%d site(s)) but is not an owner; owners: %s", name, s.Op, byOwner[name], ownerList(s.Owners)))
 		}
